@@ -106,6 +106,11 @@ class MutationMonitor:
                 return None
             pre = {}
             for k, v in ev.args.items():
+                if hasattr(v, '__next__'):
+                    # a one-shot iterator (generator, filter, map, iter(...), user iterator): being consumed is what
+                    # it is handed over for; its position is not caller-owned data
+                    pre[k] = None
+                    continue
                 try:
                     pre[k] = fp(v)
                 except Exception:  # noqa: BLE001
